@@ -82,6 +82,7 @@ type Tuple []Value
 type IterV struct {
 	str   Str
 	isStr bool
+	id    int
 	pos   int
 	m     *MapObj
 	order []int
